@@ -85,9 +85,12 @@ func c13Epilogue(r *rand.Rand) []core.Op {
 	return ops[:3+r.IntN(len(ops)-2)]
 }
 
+var c13Reporting = url.NewParser(url.WithReportValidationErrors())
+
 type fullSnap struct {
 	s      obs.Snap
 	params string
+	verrs  string // ValidationErrors(), only compared on the untouched side (a clone does not carry them)
 }
 
 func takeFull(u *url.Url, names []string) fullSnap {
@@ -99,13 +102,23 @@ func takeFull(u *url.Url, names []string) fullSnap {
 		fmt.Fprintf(&sb, "|%q=%q/%v", n, sp.GetAll(n), sp.Has(n))
 	}
 	f.params = sb.String()
+	var eb strings.Builder
+	for _, e := range u.ValidationErrors() {
+		fmt.Fprintf(&eb, "%s|", e.Error())
+	}
+	f.verrs = eb.String()
 	return f
 }
+
+func (f fullSnap) noErrs() fullSnap { f.verrs = ""; return f }
 
 func diffFull(a, b fullSnap) string {
 	d := obs.Diff(a.s, b.s)
 	if a.params != b.params {
 		d = append(d, fmt.Sprintf("search parameters: %q != %q", a.params, b.params))
+	}
+	if a.verrs != b.verrs {
+		d = append(d, fmt.Sprintf("validation errors: %q != %q", a.verrs, b.verrs))
 	}
 	return strings.Join(d, "; ")
 }
@@ -137,13 +150,17 @@ func (c13) Exec(ctx *core.Ctx, cs *core.Case) {
 	input, base := string(cs.Input), string(cs.Base)
 	prefetch := cs.N&1 == 1
 	derivedFirst := cs.N&2 == 0
+	var parser url.Parser // nil = package-level functions
+	if cs.N&4 != 0 {
+		parser = c13Reporting // ValidationErrors() is then part of what must not be shared
+	}
 	budget := len(input) + len(base) + 4096
 
 	// build (source, derived) and an independent twin pair
 	build := func() (src, der *url.Url, ok bool) {
 		var pan *core.Panic
 		if cs.Check == "resolve" {
-			b, err, p := parseImpl(ctx, nil, base, "", false, false)
+			b, err, p := parseImpl(ctx, parser, base, "", false, false)
 			if p != nil || err != nil || b == nil {
 				return nil, nil, false
 			}
@@ -157,7 +174,7 @@ func (c13) Exec(ctx *core.Ctx, cs *core.Case) {
 			}
 			return b, x, true
 		}
-		u, err, p := parseImpl(ctx, nil, input, base, cs.HasBase && base != "", false)
+		u, err, p := parseImpl(ctx, parser, input, base, cs.HasBase && base != "", false)
 		if p != nil || err != nil || u == nil {
 			return nil, nil, false
 		}
@@ -191,8 +208,8 @@ func (c13) Exec(ctx *core.Ctx, cs *core.Case) {
 
 	if cs.Check == "resolve" {
 		// the resolution itself must not have changed anything observable about the base
-		if fresh, err, p := parseImpl(ctx, nil, base, "", false, false); p == nil && err == nil && fresh != nil {
-			if a, b := takeFull(fresh, names), takeFull(tsrc, names); a != b {
+		if fresh, err, p := parseImpl(ctx, parser, base, "", false, false); p == nil && err == nil && fresh != nil {
+			if a, b := takeFull(fresh, names).noErrs(), takeFull(tsrc, names).noErrs(); a != b {
 				ctx.Violate("resolving a reference changed the base", a.s.Href, b.s.Href, diffFull(a, b))
 				return
 			}
@@ -200,7 +217,7 @@ func (c13) Exec(ctx *core.Ctx, cs *core.Case) {
 	}
 	if cs.Check == "clone" {
 		// a clone must equal its original
-		if a, b := takeFull(tsrc, names), takeFull(tder, names); a != b {
+		if a, b := takeFull(tsrc, names).noErrs(), takeFull(tder, names).noErrs(); a != b {
 			ctx.Violate("a clone differs from its original", a.s.Href, b.s.Href, diffFull(a, b))
 			return
 		}
@@ -222,7 +239,7 @@ func (c13) Exec(ctx *core.Ctx, cs *core.Case) {
 				ctx.Violate("an operation on one value changed the other value ("+what+")", before.s.Href, after.s.Href, where+": "+diffFull(before, after))
 				return false
 			}
-			if a, b := takeFull(target, names), takeFull(twin, names); a != b {
+			if a, b := takeFull(target, names).noErrs(), takeFull(twin, names).noErrs(); a != b {
 				ctx.Violate("the operated-on value does not reflect the operations like an independent twin ("+what+")", b.s.Href, a.s.Href, where+": "+diffFull(b, a))
 				return false
 			}
